@@ -973,6 +973,64 @@ def op_state_matrix(ctx, kt, first_scheme=None, own_rng=None):
     return cases
 
 
+def _late_rng(ctx, kt, salt):
+    import random as _random
+    return _random.Random(ctx.seed * 15485863 + salt * 7 + sum(kt.encode()))
+
+
+def nested_value(depth):
+    v = b"\xc0"
+    for _ in range(depth - 1):
+        v = rlp_list(v)
+    return v
+
+
+def late_history_cases(ctx, kt):
+    """later additions to the history checks; their own generator, appended after everything else so that the earlier cases
+    stay what they were: deeply nested list values; a record inserted as a value; records whose own key entry is stored
+    uncompressed; an ed25519-keyed record carrying a 65-byte `secp256k1` content entry; both schemes' valid entries"""
+    rng, o = _late_rng(ctx, kt, 1), ctx.oracle
+    ks = gens.secrets(rng, o, kt, 6)
+    a = ks[0]
+    head = ["key a " + a.spec]
+    cases = []
+    for d in (2, 15, 16, 17, 18, 19, 24, 60, 120):
+        v = nested_value(d)
+        cases.append(head + ["build a 0 1 raw/%s/%s" % (hx(b"deep"), hx(v)), "op set_udp4 a 0 9"])
+        cases.append(head + ["build a 0 1", "op insert_raw a 0 %s %s" % (hx(b"deep"), hx(v)), "op remove_insert a 0 none %s:%s" % (hx(b"x"), hx(b"y"))])
+        pl = sorted({b"id": rlp_str(b"v4"), a.entry: rlp_str(a.pub), b"deep": v}.items())
+        cases.append(["decode " + hx(record_bytes(o, a, 3, pl)[0])])
+    cases.append(head + ["build a 0 1 udp4/30303", "save 0", "op insert_enr a 0 %s 0" % hx(b"rec"), "op insert_enr a 0 %s 77" % hx(b"recs"), "op set_tcp4 a 0 1"])
+    secp = [k for k in ks if getattr(k, "pub_unc", None)]
+    eds = [k for k in ks if k.scheme == "ed"]
+    typical = lambda k, entry_val: {b"id": rlp_str(b"v4"), k.entry: entry_val, b"udp": rlp_uint(30303), b"tcp": rlp_uint(80)}
+    for k in secp[:1]:
+        hd = ["key a " + k.spec] + (["key b " + secp[1].spec] if len(secp) > 1 else [])
+        for sq, extra in ((5, {}), (2**64 - 1, {}), (7, "pad")):
+            pairs = typical(k, rlp_str(k.pub_unc))
+            if extra == "pad":
+                pairs = gens.pad_to(rng, sq, pairs, 298, 64) or pairs
+            b = record_bytes(o, k, sq, sorted(pairs.items()))[0]
+            for op in ("remove_key a 0 %s" % hx(b"id"), "insert a 0 %s b:%s" % (hx(b"big"), hx(b"z" * 290)), "set_udp4 a 1 9", "set_udp4 a 3 9", "set_udp4 a 0 9",
+                       "remove_insert a 0 none %s:%s" % (hx(b"ip"), hx(b"abcde")), "set_seq a 0 9", "remove_udp4 a 0"):
+                cases.append(hd + ["load " + b.hex(), "op " + op, "op set_tcp4 a 0 81"])
+    if eds and kt in ("ed", "comb"):
+        e0 = eds[0]
+        other = [bytes.fromhex("04" + "79be667ef9dcbbac55a06295ce870b07029bfcdb2dce28d959f2815b16f81798" + "483ada7726a3c4655da4fbfc0e1108a8fd17b448a68554199c47d08ffb10d4b8"),
+                 bytes.fromhex("06" + "79be667ef9dcbbac55a06295ce870b07029bfcdb2dce28d959f2815b16f81798" + "483ada7726a3c4655da4fbfc0e1108a8fd17b448a68554199c47d08ffb10d4b8"),
+                 b"\x04" + b"\x01" * 64]
+        for ov in other:
+            pairs = {b"id": rlp_str(b"v4"), e0.entry: rlp_str(e0.pub), b"secp256k1": rlp_str(ov)}
+            b = record_bytes(o, e0, 4, sorted(pairs.items()))[0]
+            cases.append(["key a " + e0.spec, "decode " + b.hex(), "load " + b.hex(), "op set_udp4 a 0 9", "recode 1"])
+    if kt == "comb" and eds and secp:
+        for signer in (secp[0], eds[0]):
+            pairs = {b"id": rlp_str(b"v4"), eds[0].entry: rlp_str(eds[0].pub), secp[0].entry: rlp_str(secp[0].pub), b"udp": rlp_uint(1)}
+            b = record_bytes(o, signer, 6, sorted(pairs.items()))[0]
+            cases.append(["key a " + signer.spec, "decode " + b.hex(), "load " + b.hex(), "op set_tcp4 a 0 9", "recode 1", "decode " + b.hex()])
+    return cases
+
+
 def port_cases(ctx, kt, ports):
     """C14: every given port on all four port keys through builder, setter, socket setter and decode"""
     rng, o = ctx.rng, ctx.oracle
@@ -1112,6 +1170,8 @@ def check_history_property(ctx):
                         t[3] = "3"
                         extra.append(case[:i] + [" ".join(t)] + case[i + 1:])
             cases += extra
+        if pid in ("C05", "C06", "C08", "C09", "C10", "C14"):
+            cases += late_history_cases(ctx, gk)
         if pid == "C14":
             # the matrix also under the accessor projection (own generator: the cases above stay as they were)
             import random as _random
@@ -1155,6 +1215,7 @@ def check_C04(ctx):
         hcases = hist_cases(ctx, kt, ctx.scale(16, 300), (3, 15))
         hcases += [c for c in size_sweep_cases(ctx, kt) if any(l.startswith("build") for l in c)]
         hcases += size_neutral_cases(ctx, kt)[:ctx.scale(16, 200)] + builder_reuse_cases(ctx, kt)[:ctx.scale(6, 60)]
+        hcases += late_history_cases(ctx, kt)
         res = compare_cases(ctx, kt, hcases, None, lambda c, h: ["enc", "text", "json", "pairs", "seq", "sig"], "c04b")
         seen = {}
         for case, (il, ml) in zip(hcases, res):
@@ -1200,6 +1261,8 @@ def check_C12(ctx):
             t = cmd.split()
             s = unhx(t[1])
             if t[0] == "json":
+                if s[:1] != b'"' and first(h) == "ok":
+                    out.append((i, "a JSON value that is not a string was accepted as a record: %r" % s[:60]))
                 if not (s[:1] == b'"' and s[-1:] == b'"' and b"\\" not in s):
                     continue
                 s = s[1:-1]
@@ -1241,6 +1304,15 @@ def check_C12(ctx):
                 for lab, wb in gens.wire_malformed_signed_canonical(ctx.rng, ctx.oracle, r):
                     case.append("parse " + hx(b"enr:" + gens.b64(wb)))
                     ctx.dist[lab] += 1
+            # other renderings of the same bytes, and JSON values that are not strings (deterministic, no generator state)
+            hexl = r["bytes"].hex().encode()
+            for t_alt in (hexl, hexl.upper(), b"enr:" + hexl, b"0x" + hexl):
+                case.append("parse " + hx(t_alt))
+                case.append("json " + hx(b'"' + t_alt + b'"'))
+            case.append("json " + hx(("[" + ",".join(str(x) for x in r["bytes"]) + "]").encode()))
+            case.append("json " + hx(b'["' + eds[0][1] + b'"]'))
+            case.append("json " + hx(b'{"enr":"' + eds[0][1] + b'"}'))
+            case.append("json " + hx(b"12345"))
             cases.append(case); labs.append("text_edits")
         compare_cases(ctx, kt, cases, labs, lambda c, h: ["enc", "text", "json", "disp", "seq", "pairs", "sig"], "c12", mon)
         cross_decode(ctx, kt, [], [unhx(l.split()[1]) for c in cases for l in c if l.startswith("parse ")])
@@ -1343,6 +1415,15 @@ def check_C15(ctx):
                        "op insert_raw b 0 %s %s" % (hx(kb.entry), hx(rlp_str(kb.pub))), "op set_udp4 b 0 7"):
                 cases.append(["key a " + ka.spec, "key b " + kb.spec, "build a 0 1 udp4/30303", op, "save 0", "recode 1", "pair 0 1", "pair 1 0",
                               "op set_tcp4 b 0 9", "save 2", "recode 3", "pair 2 3", "pair 3 2"])
+        # same seq, same NUMBER of pairs, key sets differ in one name (udp / tcp; ip / ip6-less custom)
+        cases.append(["key a " + a2.spec, "build a 0 5 ip4/%s udp4/30303" % ip, "save 0", "build a 0 5 ip4/%s tcp4/30303" % ip, "save 1",
+                      "build a 0 5 ip4/%s val/%s/u16:30303" % (ip, hx(b"udq")), "save 2", "pair 0 1", "pair 1 0", "pair 0 2", "pair 2 1", "pair 1 1"])
+        # the same node, seq and other pairs, the own key entry once compressed and once uncompressed (hand-signed, loaded)
+        ku = [k for k in gens.secrets(_late_rng(ctx, kt, 5), ctx.oracle, kt, 4) if getattr(k, "pub_unc", None)]
+        if ku:
+            k0 = ku[0]
+            recs2 = [record_bytes(ctx.oracle, k0, 5, sorted({b"id": rlp_str(b"v4"), k0.entry: rlp_str(pkv), b"udp": rlp_uint(7)}.items()))[0] for pkv in (k0.pub, k0.pub_unc)]
+            cases.append(["key a " + k0.spec, "load " + recs2[0].hex(), "save 0", "load " + recs2[1].hex(), "save 1", "pair 0 1", "pair 1 0", "pair 0 0", "pair 1 1"])
         # content twins by concatenation: {k1: v1, k3: v2} against {k1 ++ v1 ++ k3: v2} — the same bytes once the framing of
         # keys is dropped, different pairs (a comparison over an unframed stream of entries takes them for equal)
         a = gens.secrets(ctx.rng, ctx.oracle, kt, 1)[0]
@@ -1408,6 +1489,14 @@ def check_C16(ctx):
             for i in range(16, 32):
                 b[i] ^= x
         add("nodeid eq %s %s" % (bytes(a).hex(), bytes(b).hex()), "eq")
+    late = []
+    for ch in ("\u00f1", "\u00f6", "\u00b0", "\u00e9", "\u00c0", "\u20ac", "\u0131", "\uff10", "\u0661"):
+        c8 = ch.encode()
+        body = ("c1" * 40).encode()
+        for pos in (0, 31, 64 - len(c8)):
+            v = body[:pos] + c8 + body[pos:64 - len(c8)]
+            late.append(v[:64] if len(v) >= 64 else v)
+            late.append(body[:pos] + c8 + body[pos:63])      # 64 characters, 65+ bytes
     for n in range(0, 71):
         s = bytes(rng.choice(hexd) for _ in range(n))
         add("nodeid deser " + hx(s), "deser_len")
@@ -1449,6 +1538,9 @@ def check_C16(ctx):
                 out.append((0, "deserialised id differs from the digits"))
         return out
 
+    for v in late:
+        add("nodeid deser " + hx(v), "deser_non_ascii_aliasing")
+        add("nodeid deser " + hx(b"0x" + v), "deser_non_ascii_aliasing")
     compare_cases(ctx, "k256", cases, labs, lambda c, h: None, "c16", mon, nontrivial=lambda case, il: True)
 
 
@@ -1537,6 +1629,15 @@ def check_C17(ctx):
             out.append((0, "failed import modified the caller's buffer"))
         return out
 
+    r17 = _late_rng(ctx, "comb", 17)
+    for _ in range(ctx.scale(3, 30)):
+        sec = gens.rbytes(r17, 32)
+        for which in ("secp", "ed"):
+            for lab, b in (("len_32_mod_256", sec + gens.rbytes(r17, 256)), ("len_32_mod_256", sec + gens.rbytes(r17, 512)), ("rlp_framed", b"\xa0" + sec),
+                           ("rlp_framed_long", b"\xb8\x20" + sec), ("hex_text", sec.hex().encode()), ("hex_text_0x", b"0x" + sec.hex().encode()),
+                           ("hex_text_newline", sec.hex().encode() + b"\n"), ("quoted", b'"' + sec + b'"'), ("len_31", sec[:31]), ("len_33_trailing_zero", sec + b"\x00"),
+                           ("len_33_leading_zero", b"\x00" + sec)):
+                cases.append(["ckimport %s %s" % (which, b.hex())]); labs.append(which + "_" + lab)
     compare_cases(ctx, "comb", cases, labs, lambda c, h: None, "c17", mon, nontrivial=lambda case, il: True)
 
 
@@ -1590,6 +1691,7 @@ def check_C03(ctx):
         # every mutator x record state x signer with every accessor afterwards (own generator: the cases above stay as they were)
         import random as _random
         cases += op_state_matrix(ctx, gkt, None, _random.Random(ctx.seed * 7919 + len(kt) * 31 + sum(kt.encode())))
+        cases += late_history_cases(ctx, gkt)
         if kt == "k256":
             for _ in range(ctx.scale(60, 2000)):
                 s = gens.rbytes(rng, rng.randrange(0, 70)) if rng.random() < 0.5 else bytes(rng.choice(b"0123456789abcdefxX") for _ in range(rng.randrange(0, 70)))
@@ -1823,8 +1925,8 @@ def replay(pid, path):
         print("CMD  ", c[:300])
         print("IMPL ", a[:600])
         print("MODEL", b[:600])
-        # `e` (the decoder's error value), `alt` and `glue` are reported by the implementation only
-        d = diff_lines(a, b, None, skip={"e", "alt", "glue"})
+        # `e` (the decoder's error value) and `alt` are reported by the implementation only
+        d = diff_lines(a, b, None, skip={"e", "alt"})
         if d:
             print("DIFF ", [(x[0], str(x[1])[:80], str(x[2])[:80]) for x in d])
     if r.get("monitor_clause"):
